@@ -618,7 +618,7 @@ def main():
         done = 0
         for cap in (4, 5):
             base = list(range(0, 2 * cap + 2))
-            for hist in gen_exhaustive(3, min(n, 4)):
+            for hist in gen_exhaustive(3, min(n, 5)):
                 caseno += 1; done += 1
                 ex.run_line("case %d" % caseno); ex.run_line("cfg mode " + ("type", "subclass", "wrapper")[done % 3]); ex.run_line("cfg flavour int")
                 ex.run_line("C new %d" % cap)
